@@ -23,17 +23,28 @@ RULE = ("byte strings given as an MML file (+ side files): corpus of every defec
         "through the mds export, and a share through the vgm export, the optimiser (-O) and mdslink's path, in-process under "
         "ASan+UBSan (alignment check on) in a forked child; a sample is also given to the built mmlc/mdslink executables. "
         "non-trivial = every case (all carry tags); distinct by request text")
-EXPLANATION = ("exception routing and termination of the modelled stages are theorems (Properties/C15: the WAV reader after the repairs, "
-               "the validator via C04, RIFF/conf/VGM writer via C13/C20/C08); the whole pipeline's memory safety and the routing of the unmodelled "
-               "stages (MML reader, optimiser, MD_Driver, converter, linker) rest on sanitizer-instrumented execution of the real code on the "
-               "generated inputs; for the streams total/tool the model's prediction is the outcome SET {ok, input error with a message} and the "
-               "judge applies that set to the implementation's answer; for the stream wavfix (Wave_Bank::add_sample(Tag) on canonical and "
-               "malformed WAV files) the Lean model of the repaired reader predicts the exact header, window and rom and is diffed literally")
+EXPLANATION = ("Proof side (Properties/C15): the pipeline model (Model/Pipeline) composes the stage models of the other properties; the parse stage "
+               "(whole MML reader, every byte string), the validate stage (every song without explicit END events) and sample loading (every byte "
+               "string as a WAV file) are theorems: their outcome is never `foreign`; the optimiser, the mds converter's UB constructors and four "
+               "residual stages without a model (VGM play loop, linker, definitions outside C09/C11's models, explicit END events) are explicit "
+               "hypotheses of the composite theorem. Execution side: every generated text runs through the real code in-process under ASan+UBSan "
+               "(alignment check on) in a forked child; the judge applies the outcome set {ok, InputError with a message} to the implementation's "
+               "answer. Correspondence: the compiled pipeline model (Driver/Total.lean) names the first stage whose outcome is not ok and its class "
+               "(ok / input_error@stage / foreign@stage) and is compared per stage with the harness' answer (checks/c15.py agree()); `unmodelled@S` "
+               "answers only claim that stage S is reached (VGM play loop, linker, register-name platform commands, PCM files of a real directory). "
+               "BOUNDS of the model stream (the implementation still runs these inputs under the sanitizers, the model answers `skipped`): MML text "
+               "over 6000 bytes (1500 with -O), more than 120 events with -O (optimiser search is cubic), a definition with more than 100 values, "
+               "and runs that exhaust the executable model's step budget (validator 3*10^6 steps, optimiser 10^5 passes); the theorems are not bounded. "
+               "Stream wavfix (Wave_Bank::add_sample(Tag) on canonical and malformed WAV files, in a forked child) is diffed literally against C14's "
+               "model of the reader (Model/Wave).")
 ASSUMPTIONS = ["a run that is still computing after 8 s of CPU time (90 s with -O) under ASan is counted as a hang; inputs whose legitimate cost exceeds that (a 70000-command line: the reader copies the line once per command; -O on tracks of tens of thousands of events or thousands of tracks) are not generated",
                "the file system holds exactly the side files of the request (the work directory is private to the case)",
                "VGM export is bounded by the library's own 3600 s song limit",
-               "allocator_may_return_null=0: an allocation request beyond ASan's limit is reported as a defect (it would be std::bad_alloc or an OOM kill outside the sanitizer)"]
-TRUSTED = ["harness/h_total.cpp reproduces the call sequence of mmlc.cpp/mdslink.cpp main(); the `tool` stream runs the real executables on a sample"]
+               "allocator_may_return_null=0: an allocation request beyond ASan's limit is reported as a defect (it would be std::bad_alloc or an OOM kill outside the sanitizer)",
+               "memory safety and absence of undefined behaviour of the compiled binary are OBSERVED by ASan/UBSan on the generated inputs, not proved; the theorems are about the Lean models, tied to the code by the per-stage correspondence of this check and by the other properties' checks",
+               "std::isalpha/isblank on negative char values (bytes >= 0x80) behave as in glibc's C locale (the reader passes plain char)"]
+TRUSTED = ["harness/h_total.cpp reproduces the call sequence of mmlc.cpp/mdslink.cpp main(); the `tool` stream runs the real executables on a sample",
+           "throw-site attribution through a __cxa_throw wrapper (harness/h_total_throw.cpp); the CPU limit as the definition of a hang"]
 
 B = [0, -1, 255, 256, 32767, 32768, 65535, 65536, 2 ** 31, 2 ** 32, 1, 2, 127, 128, -128, -32768, -32769, 2 ** 31 - 1, -2 ** 31, 2 ** 63, 99999999999999999999]
 
@@ -678,19 +689,23 @@ def shrink(req):
                     yield out(lines[:i] + [l[:k] + l[k + 1:]] + lines[i + 1:])
 
 
-TECHNIQUE = "sanitizer-instrumented execution of the real pipeline on generated inputs (ASan+UBSan incl. alignment, forked child, CPU limit) + Lean 4 proof of exception routing/termination for the modelled stages + differential correspondence model<->wave.cpp for the repaired WAV reader"
-LEVEL_TEXT = ("Two halves. (1) Runtime: the calls mmlc and mdslink make (MML_Input::open_file -> Song_Validator -> optional Optimizer::optimize -> mds / vgm "
-              "export; convert + MDSDRV_Linker add_song/get_seq_data/get_pcm_data/statistics/headers) are run in-process under ASan+UBSan with the alignment "
-              "check on, each case in a forked child with a CPU limit, on generated byte strings and side files; every outcome other than `ok` or an "
-              "InputError carrying a message is a finding keyed by (class, first frame in the repository); the built mmlc/mdslink executables are run "
-              "on a sample of the same files. (2) Proof: C15_wav_reader_total (the repaired Wave_File::read/parse_chunk never reads outside the file "
-              "and never stalls, for every byte string), C15_validate_routed (Song_Validator ends in success or a message; from C04), "
-              "C15_modelled_stages_never_foreign (RIFF reader, conf parser, VGM writer: no UB outcome; from C13/C20/C08), composed in "
-              "C15_pipeline_total_partial / C15_pipeline_terminates over a pipeline whose unmodelled stages are parameters assumed to be routed.")
-LEVEL_NOTE = ("Partial by construction. UNDER A THEOREM: WAV reader (after the repairs), track validator (modulo the residual hypothesis NoImpossible), "
-              "RIFF get_chunk/constructor, Conf::from_string, VGM_Writer buffer arithmetic, and the composition of stage outcomes. ONLY UNDER SANITIZER "
-              "EXECUTION (no model in this tree): MML_Input/Line_Buffer/Track builder and the tag functions, Optimizer, MDSDRV_Data (instrument / "
-              "envelope tables), MDSDRV_Converter/Track_Writer, MDSDRV_Linker, MD_Driver with PCM/FM3/macro tracks/pitch envelopes, Wave_Bank "
-              "allocation, the tools' main(). Memory safety of the compiled binary is a runtime fact in every case. Trusted: g++/ASan/UBSan runtimes, "
-              "harness/h_total.cpp (call sequence of the tools, throw-site attribution through a __cxa_throw wrapper), the CPU limit as the definition "
-              "of a hang, the Lean kernel, Model/Pipeline (tied to wave.cpp by the wavfix stream), C14's allocator model behind it.")
+TECHNIQUE = ("Lean 4 proof of outcome totality per modelled stage (weakest-precondition calculus over the MML reader; stack-frame invariant + C04 for the validator; "
+             "C14 for the WAV reader; composition theorem with explicit stage hypotheses) + sanitizer-instrumented execution of the real pipeline on generated inputs "
+             "(ASan+UBSan incl. alignment, forked child, CPU limit) + per-stage differential correspondence pipeline model <-> implementation")
+LEVEL_TEXT = ("Level `other` (mixed proof + execution, stated as partial). PROVED over the Lean models, for ALL inputs of the stage: (1) parse — for every byte string given "
+              "as the MML file the reader ends in a parsed song or an InputError with a non-empty message, never in another exception type, an undefined-behaviour site of "
+              "Line_Buffer/MML_Input/Track, or an exhausted loop (C15_parse_routed, C15_reader_never_foreign); (2) validate — Song_Validator on every song without explicit END events "
+              "terminates in success or one of the player's messages, and its vector::at can never throw (C15_validate_routed, C15_validator_never_out_of_range; from C04 + a new invariant); "
+              "(3) sample files — load_file + Wave_File::read on every byte string return a decoded file or 'not found' without reading outside the buffer or stalling (C15_wav_reader_total, from C14); "
+              "(4) RIFF reader, conf parser, VGM writer have no UB outcome (collected from C13/C20/C08); (5) the composition: if the optimiser stage, the mds converter's UB constructors and the "
+              "four residual stages are routed then the whole pipeline is, with enough validator steps and optimiser passes (C15_pipeline_total_partial, C15_pipeline_terminates). "
+              "NOT PROVED, tested: optimiser termination/UB-freedom, the converter's UB constructors, the VGM play loop (MD_Driver), the linker, instrument/platform-command inputs outside the "
+              "C09/C11 models; and — for every stage — memory safety / UB-freedom of the compiled binary, which is observed by ASan+UBSan (alignment on) on generated inputs in a forked child "
+              "with CPU limits, every outcome other than ok or an InputError with a message being a finding keyed by (class, first repository frame).")
+LEVEL_NOTE = ("Partial by construction. UNDER A THEOREM (all inputs): MML reader (parse stage), track/song validator, WAV loader, RIFF get_chunk/constructor, Conf::from_string, VGM_Writer buffer "
+              "arithmetic, composition of stage outcomes. HYPOTHESES of the composite theorem (StageHyps, Proofs/PipelineStages): optimizeStage routed (C01 does not prove termination), MdsNoUB "
+              "(Model/MdsFile never returns codec/headerWrap/bankIndex/riff/fuel), Residual routed (VGM play loop, linker, definitions or platform commands outside Model/MdsData / MdsPlatform, "
+              "a parsed song with an explicit END event — the reader emits none, not proved). ONLY UNDER SANITIZER EXECUTION: those hypotheses, the tools' main(), and memory safety of the real "
+              "binary in every stage. The executable pipeline model is compared per stage with the implementation on every generated input within stated bounds (EXPLANATION). Trusted: g++/ASan/UBSan "
+              "runtimes, harness/h_total.cpp, the CPU limit as the definition of a hang, the Lean kernel and compiler, the hand-written models (Mml, Lexer, TrackBuilder, Tags, Player, Optimizer, "
+              "MdsData, MdsConv, MdsFile, Wave, Riff) whose agreement with the code is established by differential testing here and in C01/C04/C05/C09/C11/C14/C17/C18, not proved.")
